@@ -17,6 +17,8 @@ for meta_path in sorted(glob.glob(os.path.join(HERE, "seeded", "*", "meta.json")
     res = m["check_result"]
     sig = ", ".join("`%s`" % s.split(" ")[0] for s in (res.get("signatures") or [])[:3])
     verdict = "caught" if res.get("caught") else "**missed**"
+    if m.get("neutralised"):
+        verdict = "no longer breaks the property: " + m["neutralised"]
     if m.get("note"):
         verdict += " (after strengthening: " + m["note"].split(";")[0].replace("missed by the first version of the check ", "first version missed it ") + ")"
     out.append("| `%s` | %s | %s | %s | %s |" % (name, m["property"], m["needs_to_manifest"].replace("|", "/"), verdict, sig))
